@@ -263,6 +263,26 @@ func (t *SessionTracker) DecodeSeqNum(seqNum uint32) uint32 {
 	return seqNum
 }
 
+// NumMessages returns the number of messages in the mailbox from the client's
+// point of view, that is without the pending updates which have not been sent
+// yet. This is the value of "*" in a sequence set sent by the client.
+func (t *SessionTracker) NumMessages() uint32 {
+	t.mutex.Lock()
+	defer t.mutex.Unlock()
+
+	n := t.mailbox.numMessages
+	for i := len(t.queue) - 1; i >= 0; i-- {
+		update := t.queue[i]
+		if update.numMessages != 0 {
+			n = update.prevNumMessages
+		}
+		if update.expunge != 0 {
+			n++
+		}
+	}
+	return n
+}
+
 // EncodeSeqNum converts a message sequence number from the server view to the
 // client view.
 //
